@@ -174,6 +174,16 @@ def run_parent(args) -> int:
         if not os.environ.get("VERIF_FIXED_HASHSEED"):
             env_i["PYTHONHASHSEED"] = str((seed * 17 + i) % 4096)
         procs.append((i, out, errf, subprocess.Popen(cmd, cwd=VERIF_DIR, env=env_i, stdout=errf, stderr=errf)))
+    suite = None
+    if hasattr(mod, "install_for_suite") and (tier == "thorough" or os.environ.get("VERIF_SUITE") == "1"):
+        sout = os.path.join(WORK, f"{tagname}.suite.json")
+        if os.path.exists(sout):
+            os.remove(sout)
+        senv = dict(env, VMON_SUITE_PROP=prop, VMON_SUITE_OUT=sout, PYTHONHASHSEED="0")
+        serr = open(os.path.join(WORK, f"{tagname}.suite.err"), "w")
+        scmd = [sys.executable, "-m", "pytest", "-q", "-p", "no:cacheprovider", "-p", "vmon.pytest_plugin", "--timeout=900",
+                "--continue-on-collection-errors", os.path.join(REPO, "tests")]
+        suite = (sout, serr, subprocess.Popen(scmd, cwd=REPO, env=senv, stdout=serr, stderr=serr))
     results, problems = [], []
     for i, out, errf, p in procs:
         remaining = max(1.0, timeout - (time.time() - t0))
@@ -196,6 +206,20 @@ def run_parent(args) -> int:
         os.remove(out)
         os.remove(errf.name)
 
+    if suite is not None:
+        sout, serr, sp = suite
+        try:
+            sp.wait(timeout=max(60.0, timeout - (time.time() - t0)))
+        except subprocess.TimeoutExpired:
+            sp.kill()
+            problems.append("repository test-suite workload: watchdog fired")
+        serr.close()
+        if os.path.exists(sout):
+            results.append(json.load(open(sout)))
+            os.remove(sout)
+            os.remove(serr.name)
+        else:
+            problems.append("repository test-suite workload produced no output: " + open(serr.name).read()[-800:])
     # aggregate
     evaluations = sum(r["evaluations"] for r in results)
     nontrivial = set()
